@@ -2053,6 +2053,14 @@ int32 parseServerKeyExchange(ssl_t *ssl,
                 psTraceIntInfo("Error: Could not match EC curve: %d\n", i);
                 return MATRIXSSL_ERROR;
             }
+            /* getEccParamById only tells that the curve is compiled in: it
+               must also be one of the curves this session offered */
+            if (psTestUserEcID(i, ssl->ecInfo.ecFlags) != PS_SUCCESS)
+            {
+                ssl->err = SSL_ALERT_ILLEGAL_PARAMETER;
+                psTraceIntInfo("Error: EC curve %d was not offered\n", i);
+                return MATRIXSSL_ERROR;
+            }
 #   ifdef USE_SEC_CONFIG
             rc = matrixSslCallSecurityCallback(ssl,
                     secop_ecdh_import_pub,
